@@ -86,6 +86,32 @@ def rule_label(chk, rid, runs):
             ok, why = best
             chk.decide(rid, cons, ok, f"label index {ast.unparse(node.slice)} vs position of the top element (depth - 1): {why}"
                        + shared.cfgs(run_), rel=run_.rel, node=node)
+        # (a') the label named in the action is the label of the element's position *at the action*
+        for rec in it.yields:
+            st = rec.state
+            if rec.kind == "Forward" and shared.is_write(rec):
+                v, pos_off, what = rec.arg(4), 1, "written"
+            elif rec.kind in ("Copy", "Move") and rec.arg(2) == WORK:
+                v, what = rec.arg(1), "read"
+                pos_off = 0 if any(x == {"X"} for x in shared.trk_values(st).values()) else 1
+            else:
+                continue
+            if not is_lin(v):
+                continue
+            atoms = [a for a in it.label_atoms if st.entails_eq(v - Lin.sym(a)) == "yes"]
+            if not atoms:
+                continue
+            cons = ycons(run_, rec) + "/label-position"
+            best = (None, "no tracking container")
+            for c in sorted(it.containers):
+                # written / copied: the element is the top (depth - 1); moved: it was just removed (depth)
+                r = prove_eq(st, Lin.sym(f"idx({atoms[0]})") - (Lin.sym(f"len({c})") - Lin.const(pos_off)))
+                if r[0] is True or best[0] is None:
+                    best = r
+                if r[0] is True:
+                    break
+            chk.decide(rid, cons, best[0], f"stack position of the label named by {rec.yid} vs position of the element {what}: "
+                       f"{best[1]}" + shared.cfgs(run_), rel=run_.rel, node=rec.node)
         # (b) class labels
         w0, w1 = [], []
         for rec in it.yields:
@@ -224,6 +250,48 @@ def rule_seq(chk, rid, ctx):
                        f"{op!r} then {n1!r}: next operation starts {d} steps from the checkpoint", rel=op.rel, node=op.node)
 
 
+def rule_paired(chk, rid, ctx):
+    """a conditional Write [lvl, x] and the later conditional Read of the same checkpoint must be guarded by the
+    same condition (otherwise a checkpoint is written and never read, or read and never written)"""
+    from ..poly import PolyBuilder, pkey
+    g = Grammar(ctx.repo)
+    for fname, b in sorted(g.builders.items()):
+        if not b.live:
+            continue
+        ifs = [n for n in ast.walk(b.fn) if isinstance(n, ast.If) and id(n) not in g.liveness.dead_nodes]
+        ifs.sort(key=lambda n: n.lineno)
+
+        def single(body):
+            its = [it for it in b.items if it.kind == "op" and any(it.node is s for s in body)]
+            return its[0] if len(body) == 1 and len(its) == 1 else None
+
+        def norm(t):
+            pb = PolyBuilder()
+            if isinstance(t, ast.Compare) and len(t.ops) == 1:
+                return (type(t.ops[0]).__name__, pkey(pb.poly(ast.BinOp(t.left, ast.Sub(), t.comparators[0]))))
+            return ("?", ast.unparse(t))
+        k = 0
+        for i, w in enumerate(ifs):
+            wop = single(w.body)
+            if wop is None or w.orelse or not wop.type.startswith("Write") or wop.type.startswith("Write_Forward"):
+                continue
+            wl, wx = wop.level_step()
+            for r in ifs[i + 1:]:
+                rop = single(r.body)
+                if rop is None or not rop.type.startswith("Read"):
+                    continue
+                rl, rx = rop.level_step()
+                if diff_const(rx, wx) != 0 or (wl is not None and rl is not None and diff_const(rl, wl) != 0):
+                    continue
+                same = norm(w.test) == norm(r.test)
+                chk.decide(rid, f"{wop.construct}<->{rop.construct}", True if same else False,
+                           f"`if {ast.unparse(w.test)}`: {wop!r}  ...  `if {ast.unparse(r.test)}`: {rop!r}: " +
+                           ("same condition" if same else "the checkpoint is written under one condition and read back under another"),
+                           rel=b.rel, node=w)
+                k += 1
+                break
+
+
 def run(chk, ctx):
     runs = all_runs(chk, ctx)
     shared.rule_start(chk, "C01.START", runs)
@@ -233,6 +301,7 @@ def run(chk, ctx):
     shared.rule_work(chk, "C01.WORK", runs, hold=False)
     rule_passes(chk, "C01.PASSES", runs)
     rule_seq(chk, "C01.SEQ", ctx)
+    rule_paired(chk, "C01.SEQ", ctx)
     chk.note("not decided: that the split points chosen by the dynamic programs make every sequence executable for all l, "
              "that a loaded checkpoint covers the steps still to be recomputed, and that Mixed's unit re-use never "
              "overwrites a live checkpoint (these depend on run-time table values)")
